@@ -487,6 +487,46 @@ func init() {
 		return TupleV{BVC(64, 0), m.opaqueError("strconv.NumError.range")}
 	})
 
+	// strconv.ParseInt(s, 10, 64) / strconv.Atoi(s): optional sign, decimal digits, 64-bit range
+	parseInt := func(m *Machine, s *Term) Value {
+		digit := mk("re.range", SRe, StrC("0"), StrC("9"))
+		digits := mk("re.+", SRe, digit)
+		sign := mk("re.union", SRe, mk("str.to_re", SRe, StrC("+")), mk("str.to_re", SRe, StrC("-")))
+		two63 := &Term{Op: "c", S: SInt, Str: "9223372036854775808"}
+		var mag *Term
+		neg := False
+		switch {
+		case m.branch("parseint.digits", mk("str.in_re", SBool, s, digits)):
+			mag = mk("str.to_int", SInt, s)
+		case m.branch("parseint.signed", mk("str.in_re", SBool, s, mk("re.++", SRe, sign, digits))):
+			one := &Term{Op: "c", S: SInt, Str: "1"}
+			rest := mk("str.substr", SString, s, one, mk("str.len", SInt, s))
+			mag = mk("str.to_int", SInt, rest)
+			neg = mk("str.prefixof", SBool, StrC("-"), s)
+		default:
+			return TupleV{BVC(64, 0), m.opaqueError("strconv.NumError.syntax")}
+		}
+		// fits: magnitude < 2^63, or exactly 2^63 when negative
+		fits := Or(intLT(mag, two63), And(neg, Eq(mag, two63)))
+		if !m.branch("parseint.fits", fits) {
+			return TupleV{BVC(64, 0), m.opaqueError("strconv.NumError.range")}
+		}
+		t := mk("int2bv", SBV(64), mag)
+		t.Str = "(_ int2bv 64)"
+		return TupleV{Ite(neg, BVNeg(t), t), IfaceV{}}
+	}
+	add("strconv.ParseInt", func(m *Machine, _ *Thread, _ *Frame, a []Value, _ ssa.Value) Value {
+		s := m.needString(str(a[0]), "ParseInt")
+		base, bits := m.concInt("parseint.base", a[1]), m.concInt("parseint.bits", a[2])
+		if base != 10 || (bits != 64 && bits != 0) {
+			panic(m.unsupported("ParseInt with base %d / bitSize %d", base, bits))
+		}
+		return parseInt(m, s)
+	})
+	add("strconv.Atoi", func(m *Machine, _ *Thread, _ *Frame, a []Value, _ ssa.Value) Value {
+		return parseInt(m, m.needString(str(a[0]), "Atoi"))
+	})
+
 	// fmt.Sscanf(str, "old %d", &size): the only format the repository uses
 	add("fmt.Sscanf", func(m *Machine, _ *Thread, _ *Frame, a []Value, _ ssa.Value) Value {
 		format, ok := m.litValue(str(a[1]))
